@@ -1,0 +1,14 @@
+//go:build verif
+
+// Contracts for the deductive verifier in /verif (comment-only: adds no declarations).
+package instrumentedwriter
+
+//@ import "net/http"
+//@ use time
+
+// ---- C11: the TCP peer address reaches the handlers as the connection reported it ---------------------------------
+// (the wrapper computes a "real ip" from proxy headers for its log line; the request it hands on still carries the
+// peer address of the connection, which is what the IP-restricted certificate check judges)
+//@ func (*LoggingHandler).ServeHTTP
+//@   requires r != nil
+//@   atcall (net/http.Handler).ServeHTTP requires (h2 http.Handler, w2 http.ResponseWriter, r2 *http.Request) :: r2 == r && r2.RemoteAddr == old(r.RemoteAddr)   #C11.peer-address-reaches-the-handlers-unchanged @C11,C06
